@@ -101,7 +101,7 @@ CANON = {
     "datetime": ["2020-01-01T00:00:00Z", "2019-12-31T23:59:59.999+01:00", "2020-02-29T12:00",
                  "2020-06-15T08:30:00-05:30", "2021-03-04T05:06:07"],
     "duration": ["P1D", "PT1H", "-P1Y2M3DT4H5M6.5S", "PT0.5S", "+P3M", "P2Y"],
-    "geo": ["POINT(1 2)", "SRID=4326;POINT(4.35 50.85)", "POLYGON((0 0,0 1,1 1,0 0))"],
+    "geo": ["POINT(1 2)", "SRID=4326;POINT(4.35 50.85)", "POLYGON((0 0,0 1,1 1,0 0))", "O''Hare POINT(0 0)", ""],
 }
 
 STR_ALPHABET = "abAB0 '%_\\\";-/,():=☃é\n\t"
